@@ -71,6 +71,7 @@ def run(chk, tier, seed):
                     chk.violation(sig, what, replay(r, specs))
     from checks import fixed_clauses
     fixed_clauses.newline_names(chk, 'C05')
+    fixed_clauses.bash_clause(chk, tier)
     chk.rule = ('bounded stand-in for walker correctness: every (tree, path pattern, flag set) case compares set(glob()) (trailing separators ignored) with an '
                 'independent segment-by-segment walk of the real tree using the C02/C03 segment denotations (must <= result <= may); trees: 5 hand-made '
                 '(basic, links incl. dangling/cyclic/hidden, nested same names, case variants, deep symlinks) + seeded random ones of <= 7 entries; '
